@@ -26,5 +26,6 @@ PROPS = {
     "C09": _p(4000, 60000),
     "C19": _p(1500, 20000),
     "C12": _p(4000, 60000),
+    "C05": _p(3000, 30000, tb=["Codec: httputil.DumpResponse / http.ReadResponse round trip of an entry (tested, not proved)"]),
     "C20": _p(3000, 40000, assumptions=["goroutine lifetime and context cancellation are observed through testing/synctest, not modelled"]),
 }
